@@ -10,6 +10,11 @@ CHECKS = {
    text="Every reachable state of the write automaton for inputs of length 0..=200 (x4 seeds x3 contents) is visited and every (state, next-chunk-length) transition is executed on the real hashers and compared with the canonical state and the reference one-shot digest; all 2^(n-1) chunkings for n<=16 are additionally fed as real write sequences. Derived quantities (HLL coupon, theta hash, CPC row/col, Count-Min bucket, Bloom positions, seed hash) are compared with reference derivations over a fixed item domain.",
    note="Trusts my transcription of MurmurHash3_x64_128 / XXH64 (self-tested against published vectors each run). Contents are three fixed byte patterns; lengths > 200 only in the thorough tier.",
    design="3/C16"),
+ "C02": dict(
+   technique="explicit-state BFS over coupon subsets with arrival merging + stateless all-orders DFS + deviation-bounded enumeration on full-promotion runs, on three real sketches in lock-step against a per-slot-max reference",
+   text="Every subset (all arrival orders merged and cross-compared) of 12-14 adversarial coupons is applied to real Hll4/Hll6/Hll8 sketches from up to 7 start states per scope (lg_k 4,7,8,9), every ordered sequence to depth 4-6 without merging, and every single (lg_k 4: double) deviation on three default runs per lg_k (4..10 quick, ..21 thorough); after every step the hook dump must equal the reference (coupon set / per-slot maximum, Array4 cur_min/num_at_cur_min/aux bookkeeping, exact kxq), duplicates must be no-ops and the three types must report bit-identical estimates and bounds.",
+   note="Coupons are injected through the add-only hook (values 1..=63); C16 ties items to coupons. Alphabets and default runs are fixed and listed in the evidence; large lg_k only as default runs.",
+   design="3/C02"),
 }
 NOT_BUILT = "check not built yet in this session (planned in DESIGN.md section 3); not claimed until it exists"
 def main():
